@@ -422,6 +422,30 @@ theorem C10_body_executor_witness :
     (run Cfg.repaired Ex.nf (.honour false) [Ex.c 1, Ex.c 2] [] (Ex.forBody (.inst false))).own.bodyExe = .inst false := by
   decide
 
+/-! ## (g) "no data" is a result like any other; a refused request touches nothing -/
+
+/-- the macro `M2` whose returned child is the "nothing to report for `c0`" function, after an earlier run that
+delivered data (outputs hold values), now shown `x = c0`, on executor `e` -/
+def Ex.searchAgain (e : Exe) : Node :=
+  .comp { Ex.own0 5 [Ex.c 0, Ex.c 2] with hasParent := false, exe := e, out := app 41 [Ex.c 1, Ex.dflt, Ex.dflt] }
+    .macro [Ex.rf 0 0, none]
+    [ .fn { Ex.own0 11 [Ex.c 0, Ex.dflt, Ex.dflt] with out := app 41 [Ex.c 1, Ex.dflt, Ex.dflt], outLinked := true } 41 ]
+
+/-- Re-run by value with an input for which the feeding child reports NOT_DATA: the macro's output becomes
+NOT_DATA exactly as in the local run — it does not keep the value of the earlier run (instance of
+`C10_transparent`, whose `applyFn` is arbitrary). -/
+theorem C10_notdata_rerun_example :
+    (run Cfg.repaired Ex.nf (.honour false) [Ex.c 0, Ex.c 2] [] (Ex.searchAgain (.inst true))).own.out = nd ∧
+    (eval Ex.nf [Ex.c 0, Ex.c 2] (Ex.searchAgain (.inst true))).own.out = nd ∧
+    (Ex.searchAgain (.inst true)).own.out ≠ nd := by
+  decide
+
+/-- A run request to a node that is out (at any depth) is refused, and a refusal is the identity on the graph:
+`submitAt` does not produce a new state. -/
+theorem C10_refused_request_untouched (snap : Bool) (path : List Nat) (root n : Node)
+    (hn : nodeAt path root = some n) (hr : n.own.running = true) : submitAt snap path root = none := by
+  simp [submitAt, hn, ready, hr]
+
 end PwVerif.C10
 
 #print axioms PwVerif.C10.C10_transparent
@@ -459,3 +483,5 @@ end PwVerif.C10
 #print axioms PwVerif.C10.C10_label_capture_witness
 #print axioms PwVerif.C10.C10_keeps_body_executor
 #print axioms PwVerif.C10.C10_body_executor_witness
+#print axioms PwVerif.C10.C10_notdata_rerun_example
+#print axioms PwVerif.C10.C10_refused_request_untouched
